@@ -41,8 +41,8 @@ fn check(case: &Case) -> PResult {
     let and = no_panic("bitand_panic", "&a & &b", || sa & sb)?;
     check_content(&sy, &and, &exp_and, "bitand")?;
     // commutative forms
-    ensure!((sb | sa) == or, "bitor_commutes", "&b | &a != &a | &b");
-    ensure!((sb & sa) == and, "bitand_commutes", "&b & &a != &a & &b");
+    check_symbols(&sy, &(sb | sa), &exp_or, "bitor_commutes")?;
+    check_symbols(&sy, &(sb & sa), &exp_and, "bitand_commutes")?;
     // owned forms
     let (oa, ob) = (sa.to_owned(), sb.to_owned());
     let oor = no_panic("bit_or_panic", "Seq::bit_or", || oa.clone().bit_or(ob.clone()))?;
